@@ -3,7 +3,7 @@ import SwhVerif.Lemmas.MerkleStruct
 # Merkle cache: the bulk operation `update` (C10/C14 helper lemmas, part 5)
 -/
 namespace Swh.Merkle
-variable {H : Type} {hashFn : Data → List (Name × H) → H}
+variable {H : Type} {hashFn : Data → List (EntryV H) → H}
 
 /-- the `match` of the loop body, as a count -/
 def indOpt (d : Id) : Option Id → Nat
